@@ -45,6 +45,9 @@ def streams(rng, cfg):
     out.append(("endless-trailers", [head + te + b"0\r\n"] + [b"t: u\r\n"] * n))
     out.append(("endless-empty-name-trailers", [head + te + b"0\r\n"] + [b":\r\n"] * n))
     out.append(("huge-chunk", [head + te + b"7fffffff\r\n"] + [b"d" * 50] * 50))
+    out.append(("huge-chunk-with-extension", [head + te + b"7fffffff;a=b\r\n"] + [b"d" * 50] * 50))
+    out.append(("huge-chunk-with-empty-extension", [head + te + b"7fffffff;\r\n"] + [b"d" * 50] * 50))
+    out.append(("huge-chunk-after-small-ones", [head + te + b"1\r\nz\r\n1;x\r\nz\r\n7ffffff0 ; q\r\n"] + [b"d" * 50] * 50))
     out.append(("endless-cr", [head] + [b"\r"] * n))
     out.append(("body-over-content-length-pipelined", [head + b"Content-Length: 3\r\n\r\nabc"] + [b"GET / HTTP/1.1\r\nHost: h\r\nContent-Length: 0\r\n\r\n"] * 200))
     return out
